@@ -266,6 +266,7 @@ func runCheck(o checkOpts) int {
 	solverCount := map[string]int{}
 	nProof, nProved, nCover, nCovered, nCoverUnknown := 0, 0, 0, 0, 0
 	var failed []*Oblig
+	var unreachable []string
 	knownSeen := map[string]bool{}
 	for _, ob := range obs {
 		recs = append(recs, obRecord{ob.Name, ob.Kind, ob.Status, ob.Solver, ob.Secs, ob.Pos, ob.Src})
@@ -279,7 +280,13 @@ func runCheck(o checkOpts) int {
 			case "covered":
 				nCovered++
 			case "vacuous":
-				failed = append(failed, ob)
+				// an unreachable exit is dead (defensive) code, not an alarm; an unsatisfiable
+				// entry means contradictory preconditions: the unit proves nothing
+				if strings.HasSuffix(ob.Name, ":cover:entry") {
+					failed = append(failed, ob)
+				} else {
+					unreachable = append(unreachable, ob.Name)
+				}
 			default:
 				nCoverUnknown++
 			}
@@ -354,6 +361,7 @@ func runCheck(o checkOpts) int {
 		"cover_queries":         nCover,
 		"cover_sat":             nCovered,
 		"cover_undecided":       nCoverUnknown,
+		"unreachable_paths":     unreachable,
 		"functions_under_contract": fnList,
 		"solver_seconds":        solverTime,
 		"solver_wins":           solverCount,
